@@ -551,8 +551,12 @@ func (iv *Inv) expect(t *Tree) *Expectation {
 		ex.Unsure = "several files selected with stdout destination"
 	}
 	for _, f := range files {
-		if len(filepath.Base(f.path)) > 251 && iv.Output != "" {
-			ex.UnsureFinal = "file name too long for a .bak sibling: " + filepath.Base(f.path)[:16] + "…"
+		// Whatever sibling name an implementation derives from the file's own name (a backup, a
+		// temporary) needs some room below the 255-byte limit of a file name; how much is the
+		// implementation's business, not the README's. Names within 32 bytes of the limit are
+		// therefore not judged for their final state (C20 still judges that nothing is lost).
+		if len(filepath.Base(f.path)) > 255-32 && iv.Output != "" {
+			ex.UnsureFinal = "file name too long for a derived sibling name: " + filepath.Base(f.path)[:16] + "…"
 		}
 	}
 	seenDst := map[string]bool{}
